@@ -170,6 +170,8 @@ pub struct StackCfg {
     pub max_per_poll: usize,
     pub chunk: u64,
     pub prune_keep: Option<u64>,
+    /// the aggregator's wiring: `CardanoChainDataImporter` without the chunking / pruning decorators
+    pub bare: bool,
 }
 
 /// Everything a signer process holds about chain data; dropping it = stopping the process.
@@ -210,9 +212,12 @@ impl Sut {
             Arc::new(CardanoBlockScanner::new(Arc::new(tokio::sync::Mutex::new(reader)), cfg.max_per_poll, logger()));
         let base = Arc::new(CardanoChainDataImporter::new(scanner, store.clone(), logger()));
         let with_pruner =
-            Arc::new(ChainDataImporterWithPruner::new(cfg.prune_keep.map(BlockNumber), store.clone(), base, logger()));
-        let importer: Arc<dyn ChainDataImporter> =
-            Arc::new(ChainDataImporterByChunk::new(store.clone(), with_pruner, BlockNumber(cfg.chunk), logger()));
+            Arc::new(ChainDataImporterWithPruner::new(cfg.prune_keep.map(BlockNumber), store.clone(), base.clone(), logger()));
+        let importer: Arc<dyn ChainDataImporter> = if cfg.bare {
+            base
+        } else {
+            Arc::new(ChainDataImporterByChunk::new(store.clone(), with_pruner, BlockNumber(cfg.chunk), logger()))
+        };
         let signer_importer = Arc::new(SignerChainDataImporter::new(importer.clone()));
         let ctx_builder = CardanoTransactionsSignableBuilder::<MKTreeStoreSqlite>::new(signer_importer.clone(), repo.clone());
         let cbtx_builder =
